@@ -147,6 +147,31 @@ CHECKS.update({
    technique='Coq induction over fit histories on hand-written state machines; AST facts; history correspondence',
    ref='DESIGN.md section 7, C19'),
 })
+CHECKS.update({
+ 'C03': dict(
+   text='Machine-checked proof (Coq) about definitions generated from the univariate classes (closed-form fits, constant detection and the degenerate-method table, ScipyModel delegation tables, GaussianKDE bounds / weighted-sum CDF / percent_point routing and bracket): '
+        'constant data gives the point mass (unit-step CDF, constant quantile and sample), UniformUnivariate satisfies every clause end to end (monotone CDF, limits, density integrates to CDF increments, both round trips, log density), '
+        'KDE CDF monotone with the exact defect -delta below the lower bound, routing of boundary probabilities, bracket validity iff u <= F(upper), quantile existence/uniqueness/monotonicity composed with the C18 bisect theorems, wrapper delegation, log density dispatch. '
+        'PARTIAL: the distribution-function laws of the six scipy-delegated families are oracle hypotheses (all four queries provably pass the same stored parameters to the same scipy distribution).',
+   note=TB + 'scipy.stats distributions, ndtr and gaussian_kde are oracles (captured); Q mirror of the branch logic proved equal to the R model through Q2R.',
+   technique='Coq/Coquelicot proof over AST-generated univariate model; Q-mirror vm_compute + Interval correspondence on captured oracle values',
+   ref='DESIGN.md section 7, C03'),
+ 'C04': dict(
+   text='Machine-checked proof (Coq) about the generated _fit methods: Gaussian loc = mean, scale = population std, and this pair maximises the Gaussian likelihood (uniquely); Uniform loc = min, scale = range, tight; the start values/keys handed to and stored from the scipy MLE fits; '
+        'TruncatedGaussian support = [min,max] (user bounds honoured, data-derived otherwise, per fit); the GaussianKDE object is built from exactly (dataset or resample, bw_method, weights). '
+        'PARTIAL: closeness to the generating law within a DKW band (and the 80% clause) is statistical: search only, at false-alarm level 1e-9.',
+   note=TB + 'scipy fit/fmin_slsqp/gaussian_kde are oracles with captured traces.',
+   technique='Coq proof over AST-generated estimators; captured-trace correspondence; DKW oracle in witness search only',
+   ref='DESIGN.md section 7, C04'),
+ 'C17': dict(
+   text='Machine-checked proof (Coq) about an executable data-plane model of the vine (symbolic provenance terms for conditional CDF columns, likelihood recursion over a partial uni_matrix, row sampler): each edge copula is selected on get_conditional_uni of its parents and its U are the h-functions of those inputs; '
+        'provenance F(L|D), F(R|D) proved for trees 1-2 of every vine, for every centre vine and for all hereditarily-good edges, REFUTED with witnesses from tree 3 on for direct/regular vines; likelihood = sum of log pair densities and a function of (model,u) when every read is defined (def-before-use refuted in the bad case); '
+        'the sampler assigns every variable exactly once (DFS over a connected tree), sample shape, two-column reduction with the documented top-1% collapse, clipping strictly inside (0,1) with generated constants. '
+        'PARTIAL: reproduction of marginals/tau within sampling error is statistical (search only).',
+   note=TB + 'Model.VineData is hand-written (correspondence by content-tagged arrays on the real classes); select_copula and h are symbolic oracles.',
+   technique='Coq proof over hand-written symbolic data-flow model; tag-based vm_compute correspondence; generated clip constants with bridges',
+   ref='DESIGN.md section 7, C17'),
+})
 NOT_YET = {}
 def main():
     props = [json.loads(l) for l in open(os.path.join(V, 'properties.jsonl'))]
